@@ -4,10 +4,9 @@
 // term of the case is the empty history): freshness against a from-scratch evaluation with the same reading
 // discipline, executions only after a change in the cone, version = executions, the node read reports Processed.
 //
-// On the tree without fixes/C11-unread-stale-input.patch the rule "executes only if something changed" fails: an
-// input that is Stale and was not read keeps Outdated() true for ever, so the node (and everything downstream)
-// re-executes on every read.  Those failures carry FailKey lazyKey.  The stream is switched on with
-// VERIF_C11_LAZY=1 (default off until the repair has landed or the finding is listed in known_findings.json).
+// On a tree without /repo commit 6677351 (fixes/C11-unread-stale-input.patch) the rule "executes only if something
+// changed" fails: an input that is Stale and was not read keeps Outdated() true for ever, so the node (and
+// everything downstream) re-executes on every read.  Those failures carry FailKey lazyKey.
 package main
 
 import (
